@@ -24,6 +24,18 @@ N = 3
 B = 'FixedArray<int>: every length 0..%d, stride 1..2, writable or not, direct or masked view with arbitrary valid mask indices, arbitrary contents' % N
 
 
+def buffer_replay(chk, ob, inp, r):
+    tag = ob.func[len('h_buf_'):]
+    with _lock:
+        if 'b' not in _exe:
+            exe = os.path.join(chk.wd, 'c19_replay_buf')
+            must(['g++', '-std=c++17', '-O1', '-w', '-DNDEBUG'] + Bd.includes(chk.wd, py=True) + [os.path.join(VERIF, 'harness', 'c19', 'replay_buf.cpp'), '-o', exe, '-lboost_python311', '-lpython3.11'], timeout=600)
+            _exe['b'] = exe
+    v = r['inputs']
+    rc, out, err, dt = run([_exe['b'], tag, str(v.get('len', 0)), str(v.get('stride', 1)), str(v.get('wr', 1) & 1)], timeout=60)
+    return (rc == 1 and 'REPLAY-FAIL' in out), out + err
+
+
 def build(chk):
     e = EngB(chk, 'pyarray', py=True, validate=False)
     e.variant('exact')
@@ -45,10 +57,18 @@ def build(chk):
     chk.add(ob('O4.accessors', 'h_accessors', 'ReadOnly/Writable Direct/Masked access classes read and write exactly the i-th selected element; the wrong kind is refused', bounds=B))
     chk.add(ob('O4.match_dimension', 'h_match_dimension', 'match_dimension accepts equal lengths (non-strict: also the unmasked length of a masked reference) and raises otherwise', bounds=B))
     chk.add(ob('O4.makeReadOnly', 'h_make_readonly', 'makeReadOnly clears writable() and leaves the data alone', bounds=B))
-    chk.stubs += ['PySlice_Unpack: returns the (start, stop, step) chosen by the harness', 'PySlice_AdjustIndices: transcription of CPython\'s public algorithm (this IS the Python-list slice semantics)',
+    # ---- buffer interface
+    eb = EngB(chk, 'pybuffer', py=True, validate=False)
+    eb.variant('exact', only=['w_buf_describe_' + t for t in ('i', 'f', 'd', 's', 'v2f', 'v3f', 'v4d', 'v3i')])
+    for t, nm in (('i', 'int'), ('f', 'float'), ('d', 'double'), ('s', 'short'), ('v2f', 'V2f'), ('v3f', 'V3f'), ('v4d', 'V4d'), ('v3i', 'V3i')):
+        o = eb.ob('O5.buffer_description.%s' % t, 'c19/buffer.c', 'h_buf_' + t, 'buffer export of FixedArray<%s>: itemsize, ndim, shape, strides, readonly, buf and len describe exactly the array memory (len == length*stride*sizeof(element); contiguous: product of shape * itemsize)' % nm,
+                  unwind=4, timeout=120, bounds='all lengths 0..8, strides 1..3, writable or not', backends=('minisat', 'kissat'))
+        o.custom_replay = buffer_replay
+        chk.add(o)
+    chk.stubs += ['operator new[] / delete[] (shape and stride arrays of BufferAPI): exactly-sized heap objects', 'PySlice_Unpack: returns the (start, stop, step) chosen by the harness', 'PySlice_AdjustIndices: transcription of CPython\'s public algorithm (this IS the Python-list slice semantics)',
                   'PyLong_AsSsize_t: returns the harness-chosen index', 'PyErr_SetString: no-op', 'boost::python::throw_error_already_set: sets the exception flag (PYERR)', 'shared_array reference counts start at 1000 (never reach zero)']
     chk.assumptions += ['representation invariant of a masked reference: _indices[i] < _unmaskedLength, _length <= _unmaskedLength',
                         'operation sequences are covered through one step from an arbitrary valid state', 'libstdc++ exception object constructors have no effect on the array']
     chk.outside += ['lifetime of views under arbitrary release order (boost::any/shared_array graphs and boost.python call policies behind the Python FFI)', 'StringTable/StringArray (boost::multi_index)', 'FixedVArray, FixedArray2D, FixedMatrix: not yet covered',
-                    'getslice / mask constructors (heap allocation through shared_array): not yet covered', 'buffer protocol: not yet covered', 'element types other than int']
+                    'getslice / mask constructors (heap allocation through shared_array): not yet covered', 'fixedArrayFromBuffer (candidate: copies view.len bytes into shape[0] elements without a size check): not yet covered', 'element types other than int']
     chk.not_encodable += ['view lifetimes / reference graphs', 'StringTable (boost::multi_index_container)']
